@@ -16,6 +16,7 @@ import (
 	"os"
 	"path/filepath"
 	"sync"
+	"sync/atomic"
 	"time"
 
 	"github.com/ARM-software/golang-utils/utils/commonerrors"
@@ -43,6 +44,12 @@ type scenario struct {
 	AtN2       int      `json:"at_n2,omitempty"`
 	Index      int      `json:"index"`
 	Stream     string   `json:"stream"`
+	// LongHold: every hold lasts longer than the staleness threshold, so that a lock handed over from one live holder to
+	// the next is old when it is released (whoever pairs readings of the old and of the new lock must not call it stale)
+	LongHold bool `json:"long_hold,omitempty"`
+	// Trigger (policy "straddle"): the victim's operation waits until the lock directory has been "created" anew or
+	// "removed" by somebody, then runs first
+	Trigger string `json:"trigger,omitempty"`
 }
 
 type result struct {
@@ -53,6 +60,8 @@ type result struct {
 	acquires    int
 	contended   int
 	perActorOps map[string]int
+	// straddleFired: the held operation of a "straddle" schedule was let go because the lock had changed hands
+	straddleFired bool
 }
 
 func contender(ctx context.Context, w *lockh.World, name, mode string, override bool, cycles int, r *vrun.Run, sc scenario, res *result, mu *sync.Mutex) {
@@ -93,7 +102,11 @@ func contender(ctx context.Context, w *lockh.World, name, mode string, override 
 			res.contended++
 		}
 		mu.Unlock()
-		lockh.Sleep(ctx, time.Duration(30+rng.IntN(90))*time.Millisecond)
+		hold := time.Duration(30+rng.IntN(90)) * time.Millisecond
+		if sc.LongHold {
+			hold = time.Duration(110+rng.IntN(140)) * time.Millisecond
+		}
+		lockh.Sleep(ctx, hold)
 		if ctx.Err() != nil {
 			return
 		}
@@ -114,16 +127,40 @@ func runScenario(r *vrun.Run, sc scenario, keep bool) *result {
 	}
 	rng := r.Rand(sc.Stream+"-sched", sc.Index)
 	var pol sched.Policy
+	var wref atomic.Pointer[lockh.World]
+	var straddle *sched.Straddle
 	switch sc.Policy {
 	case "pct":
 		pol = &sched.PCT{AdvanceP: sc.AdvanceP, D: sc.D, Horizon: 600}
 	case "delay":
 		pol = sched.Delay{Victim: sc.Victim, AtN: sc.AtN, Victim2: sc.Victim2, AtN2: sc.AtN2}
+	case "straddle":
+		st := &sched.Straddle{Victim: sc.Victim, AtN: sc.AtN, MaxHold: 400 * time.Millisecond, Count: func() int {
+			w := wref.Load()
+			switch {
+			case w == nil:
+				return 0
+			case sc.Trigger == "removed":
+				return w.Removed()
+			}
+			return w.Created()
+		}}
+		// only somebody who merely looks at the lock may be kept waiting beyond the gate-age cap: stalling an actor inside its
+		// acquisition or its heartbeat would take the run outside the property ("as long as the holder's heartbeat keeps running")
+		st.Eligible = func(p *sched.Pending) bool {
+			w := wref.Load()
+			return w != nil && !w.OwnsCurrent(p.Actor) && !fsmon.IsMutating(p.Op, 0) && p.Op != fsmon.OpOpenFile
+		}
+		pol, straddle = st, st
 	default:
 		pol = sched.RandomWalk{AdvanceP: sc.AdvanceP}
 	}
 	s := sched.New(pol, rng)
 	s.KeepTrace = true
+	if straddle != nil {
+		s.CapExempt = straddle.Exempt
+		defer func() { res.straddleFired = straddle.Fired }()
+	}
 	res.s = s
 	res.deadlock = sched.Bubble(func() {
 		sub, id := lockh.Names(sc.Index)
@@ -141,6 +178,7 @@ func runScenario(r *vrun.Run, sc scenario, keep bool) *result {
 		w.KeepEvents = true // a schedule is a few thousand events: kept so that a refuting event comes with what led to it
 		_ = keep
 		res.w = w
+		wref.Store(w)
 		if sc.Stream == "rand" && sc.Index%4 == 1 {
 			// one transient I/O failure (the operation is not executed and reports an error) somewhere in the life of one
 			// contender: a failed heartbeat write of a live holder must not open the door to a second holder
@@ -365,6 +403,33 @@ func main() {
 		}
 		res := runScenario(r, wit.Scenario, true)
 		analyse(r, res)
+		if os.Getenv("VERIF_C01_TRACE") != "" {
+			adv := 0
+			for _, c := range res.s.Trace {
+				if c.Advance {
+					adv++
+					continue
+				}
+				if adv > 0 {
+					fmt.Printf("  +%dms\n", adv)
+					adv = 0
+				}
+				fmt.Printf("%s %s #%d\n", c.Actor, c.Op, c.N)
+			}
+			fmt.Printf("straddle fired: %v\n", res.straddleFired)
+			_, foreign, incs := res.w.Snapshot()
+			for _, f := range foreign {
+				fmt.Printf("foreign: %+v\n", f)
+			}
+			for _, i := range incs {
+				fmt.Printf("inc: %+v\n", i)
+			}
+			for _, e := range res.w.Events {
+				if e.Actor == wit.Scenario.Victim {
+					fmt.Printf("ev %d %s %s err=%v n=%d\n", e.Seq, e.Op, filepath.Base(e.Path), e.Error(), e.N)
+				}
+			}
+		}
 		r.Finish()
 	}
 
@@ -375,12 +440,28 @@ func main() {
 		analyse(r, res)
 	})
 
+	// handovers between live holders whose holds outlast the staleness threshold, watched by stale-lock pollers
+	vrun.Parallel(r.Pick(1200, 30000), 0, func(i int) {
+		sc := genScenario(r, "handover", i)
+		sc.LongHold, sc.Dead = true, ""
+		sc.Cycles = 2 + i%2
+		if !sc.Override {
+			sc.Releaser = true
+		}
+		res := runScenario(r, sc, true)
+		analyse(r, res)
+		r.Obs("handover_schedules", 1)
+	})
+
 	// single-preemption enumeration on small fixed scenarios
 	base := []scenario{
 		{Contenders: 2, Modes: []string{"lock", "lock"}, Cycles: 2, Policy: "delay", Stream: "enum-a"},
 		{Contenders: 2, Modes: []string{"try", "lock"}, Override: true, Cycles: 2, Dead: "before-heartbeat", Policy: "delay", Stream: "enum-b"},
 		{Contenders: 3, Modes: []string{"lock", "timeout", "try"}, Override: true, Cycles: 1, Dead: "after-heartbeat", Policy: "delay", Stream: "enum-c"},
 		{Contenders: 2, Modes: []string{"try", "try"}, Override: false, Cycles: 2, Dead: "before-heartbeat", Releaser: true, Policy: "delay", Stream: "enum-d"},
+		{Contenders: 2, Modes: []string{"lock", "try"}, Override: false, Cycles: 2, Releaser: true, LongHold: true, Policy: "straddle", Trigger: "created", Stream: "enum-e"},
+		{Contenders: 2, Modes: []string{"lock", "try"}, Override: false, Cycles: 2, Releaser: true, LongHold: true, Policy: "straddle", Trigger: "removed", Stream: "enum-f"},
+		{Contenders: 3, Modes: []string{"try", "lock", "timeout"}, Override: true, Cycles: 2, LongHold: true, Policy: "straddle", Trigger: "created", Stream: "enum-g"},
 	}
 	for _, b := range base {
 		// dry run without preemption to learn the per-actor operation counts
@@ -401,8 +482,11 @@ func main() {
 		var pts []pt
 		for a, n := range counts {
 			limit := n
-			if r.Quick() && limit > 70 {
+			if r.Quick() && limit > 70 && !b.LongHold {
 				limit = 70
+			}
+			if r.Quick() && limit > 260 {
+				limit = 260
 			}
 			for i := 1; i <= limit; i++ {
 				pts = append(pts, pt{a, i})
@@ -415,8 +499,11 @@ func main() {
 			sc.Index = i
 			res := runScenario(r, sc, true)
 			analyse(r, res)
+			if res.straddleFired {
+				r.Obs("operations_held_across_a_change_of_hands_of_the_lock", 1)
+			}
 		})
-		if !r.Quick() {
+		if !r.Quick() && b.Policy == "delay" {
 			// bound 2: pairs of preemption points of two different actors (sampled deterministically)
 			rng := r.Rand("enum2-"+b.Stream, 0)
 			n2 := 6000
